@@ -699,6 +699,9 @@ func main() {
 	registerLogModule()
 	rng := rand.New(rand.NewSource(env.Seed))
 
+	if env.Replay != "" {
+		replay(env, rep)
+	}
 	// one TLC run per module-set size; each explores the union of its exhaustive families and a seeded sample
 	var fams []family
 	add := func(name, config string, nsample int, mods []string, maxMain int) {
@@ -919,6 +922,39 @@ func check(worker int, dir string, cs *Case, two bool, rep *common.Report, cnt *
 		rep.Sample(map[string]interface{}{"family": cs.Family, "kinds": cs.Alts[0].Kinds, "main": cs.Alts[0].Bodies["main"],
 			"bodies": cs.Alts[0].Bodies, "expected": cs.Alts[0].Obs, "observed": a})
 	}
+}
+
+// replay re-runs the one configuration of a recorded divergence; the behaviours the model allows for it
+// are in the file (they were printed by TLC when the divergence was found)
+func replay(env *common.Env, rep *common.Report) {
+	b, err := os.ReadFile(env.Replay)
+	var f struct {
+		Case struct {
+			Family  string            `json:"family"`
+			Kinds   map[string]string `json:"kinds"`
+			Bodies  map[string][]Stmt `json:"bodies"`
+			Allowed []struct {
+				Policy string `json:"policy"`
+				Obs    []Obs  `json:"obs"`
+			} `json:"allowed"`
+		} `json:"case"`
+	}
+	if err != nil || json.Unmarshal(b, &f) != nil || len(f.Case.Allowed) == 0 || len(f.Case.Bodies["main"]) == 0 {
+		common.Inconclusive("property=C19 replay file %s holds no configuration: %v", env.Replay, err)
+	}
+	cs := &Case{Family: f.Case.Family, Key: string(b)}
+	for _, a := range f.Case.Allowed {
+		cs.Alts = append(cs.Alts, &Rec{Fam: f.Case.Family, Kinds: f.Case.Kinds, Bodies: f.Case.Bodies, Policy: a.Policy, Alts: len(f.Case.Allowed), Obs: a.Obs})
+	}
+	dir := filepath.Join(env.Scratch, "mods1")
+	os.MkdirAll(dir, 0o755)
+	cnt := &counters{cases: map[string]int{}, classes: map[string]int{}, policies: map[string]int{}, distinct: map[[20]byte]bool{}}
+	check(1, dir, cs, true, rep, cnt)
+	if cnt.notRepro > 0 {
+		common.Inconclusive("property=C19 the replayed case diverged once and not again in a fresh context")
+	}
+	rep.Evaluations = cnt.steps
+	rep.Finish()
 }
 
 func sameObs(a, b *Rec) bool {
